@@ -280,7 +280,7 @@ def obligations(tier: str):
         {"id": "smt.b2_parse_hex_digits", "kind": "smt", "func": "b2_parse_hex_digits", "timeout": 300},
         {"id": "smt.b2_surrogates", "kind": "smt", "func": "b2_surrogates", "timeout": 300},
     ]
-    t = 300 if tier == "quick" else 3000
+    t = 300 if tier == "quick" else 1500
     for i, (pre, suf, k, tr) in enumerate(CONTEXTS):
         if tr == "t" and tier == "quick":
             continue
